@@ -36,9 +36,13 @@ def high_second_hits(k, seed):
     rng = random.Random(seed * 59 + k)
     nt = rng.choice([40, 80])
     rows = []
-    steps = rng.sample(range(nt), rng.choice([2, 3, 4]))
+    steps = rng.sample(range(nt), rng.choice([2, 3, 4, 5]))
     for t in range(nt):
         if t in steps:
+            if k % 2 and rng.random() < 0.7:
+                # a vertical-visibility hit (type -1) above the limit is a hit above the limit like any other
+                rows.append(('A', -30.0 * t, 14000.0 + rng.uniform(0, 20), -1))
+                continue
             rows.append(('A', -30.0 * t, rng.choice([1000.0, 14000.0]) + rng.uniform(0, 20), 1))
             rows.append(('A', -30.0 * t, 14000.0 + rng.uniform(100, 200), 2))
             if rng.random() < 0.6:
@@ -46,6 +50,26 @@ def high_second_hits(k, seed):
         else:
             rows.append(('A', -30.0 * t, np.nan, 0))
     return _df(rows), {'k': k, 'seed': seed, 'layout': 'high_second_hits', 'ceilos': ['A'], 'rows': len(rows)}
+
+
+def flat_deck_at_the_msa(k, seed):
+    """every hit of two instruments at one height H; the MSA is set to exactly H (and the buffer to 0 or more): the deck's base is AT
+    the MSA, hence not reportable"""
+    import random
+    rng = random.Random(seed * 61 + k)
+    H = float(rng.choice([5000, 1500, 9900, 300]))
+    rows = [(c, -1200.0 + 30.0 * t + j, H, 1) for j, c in enumerate(('A', 'B')) for t in range(40)]
+    return _df(rows), {'k': k, 'seed': seed, 'layout': f'flat_deck_at_the_msa({H})', 'ceilos': ['A', 'B'], 'rows': len(rows), 'H': H}
+
+
+def stray_hits_only(k, seed):
+    """non-detections but for one or two stray hits (no set reaches 1 okta): with a zero / negative MSA nothing is cloud"""
+    import random
+    rng = random.Random(seed * 71 + k)
+    rows = [('A', -30.0 * t, np.nan, 0) for t in range(40)]
+    for t in rng.sample(range(40), rng.choice([1, 2])):
+        rows[t] = ('A', -30.0 * t, 800.0 + rng.uniform(0, 30), 1)
+    return _df(rows), {'k': k, 'seed': seed, 'layout': 'stray_hits_only', 'ceilos': ['A'], 'rows': len(rows)}
 
 
 def okta_from_hits(data, idcol, cid, max_hits, max0, max8):
@@ -61,7 +85,11 @@ def okta_from_hits(data, idcol, cid, max_hits, max0, max8):
 
 def check(k, seed):
     from ampycloud import wmo
-    if k % 7 == 3:
+    if k % 14 == 4:
+        df, desc = flat_deck_at_the_msa(k, seed)
+    elif k % 14 == 11:
+        df, desc = stray_hits_only(k, seed)
+    elif k % 7 == 3:
         df, desc = sparse_multi_hit(k, seed)
     elif k % 7 == 5:
         df, desc = high_second_hits(k, seed)
@@ -72,6 +100,10 @@ def check(k, seed):
         prms.update({'MSA': 10000, 'MSA_HIT_BUFFER': 1500, 'MAX_HITS_OKTA0': 3})
     if k % 7 == 3:
         prms.setdefault('MAX_HITS_OKTA0', 3)
+    if k % 14 == 4:
+        prms = {'MSA': desc['H'], 'MSA_HIT_BUFFER': [0, 0, 500, 1500][(k // 14) % 4]}
+    if k % 14 == 11:
+        prms = {'MSA': [0, -30, 0, 5000][(k // 14) % 4], 'MAX_HITS_OKTA0': 3}
     fails = []
     if k % 7 in (1, 2):
         # an MSA just above / at / just below the base of a listed layer, not a multiple of 100 ft (the MSA is given in ft above the
